@@ -6,6 +6,7 @@ import (
 	"context"
 	"fmt"
 	"os"
+	"path"
 	"path/filepath"
 
 	"github.com/fatih/color"
@@ -188,6 +189,55 @@ func specPath(n *Node) string {
 	return specPath(n.parent) + "/" + n.name
 }
 
+// pJoin1, pJoin2: path.Join of one and of two elements; uninterpreted in the logic (constrained by the axioms of
+// /verif/gvc/trusted/path.spec only).
+//@ spec gtree.pJoin1
+//@   opaque
+func pJoin1(a string) string { return path.Join(a) }
+
+//@ spec gtree.pJoin2
+//@   opaque
+func pJoin2(a, b string) string { return path.Join(a, b) }
+
+// specPathUp: s with the names of a and of all its ancestors joined in front of it, nearest first
+// (path.Join(root, path.Join(..., path.Join(a, s)))) - the way the grower builds the stored path of a node.
+//@ spec gtree.specPathUp
+//@   decreases a == nil ? 0 : a.hierarchy
+func specPathUp(a *Node, s string) string {
+	if a == nil {
+		return s
+	}
+	if a.hierarchy <= 1 || a.parent == nil || a.parent.hierarchy >= a.hierarchy {
+		return pJoin2(a.name, s)
+	}
+	return specPathUp(a.parent, pJoin2(a.name, s))
+}
+
+// specStoredPath: what the grower has to store as the path of a node below the root: its own name with the names of
+// all its ancestors up to the root joined in front.
+func specStoredPath(n *Node) string {
+	return specPathUp(n.parent, pJoin1(n.name))
+}
+
+// lemmaPathUp, lemmaStoredIsPath: when the names on the way up are single valid path elements (what a validating
+// grower checks), the stored path is the names from the root down to the node joined by "/" (specPath).
+//@ lemma gtree.lemmaPathUp
+//@   requires v: a != nil && specValidUp(a) && cleanRel(s)
+//@   ensures p: specPathUp(a, s) == specPath(a) ++ "/" ++ s && cleanRel(specPathUp(a, s))
+//@   decreases a.hierarchy
+func lemmaPathUp(a *Node, s string) {
+	if !(a.hierarchy <= 1 || a.parent == nil || a.parent.hierarchy >= a.hierarchy) {
+		lemmaPathUp(a.parent, pJoin2(a.name, s))
+	}
+}
+
+//@ lemma gtree.lemmaStoredIsPath
+//@   requires v: n != nil && specValidUp(n) && n.hierarchy > 1 && n.parent != nil && n.parent.hierarchy < n.hierarchy
+//@   ensures p [C06,C07,C08]: specStoredPath(n) == specPath(n)
+func lemmaStoredIsPath(n *Node) {
+	lemmaPathUp(n.parent, pJoin1(n.name))
+}
+
 // ---------------------------------------------------------------------------------------------
 // simple_tree_grower.go
 
@@ -202,7 +252,9 @@ func specPath(n *Node) string {
 //@   ensures noval [C01]: !dg.enabledValidation ==> result == nil
 //@   ensures valid [C07,C09]: dg.enabledValidation && result == nil ==> validElem(current.name) && fsValid(specNodePath(current))
 //@   ensures complete [C09]: validElem(current.name) && fsValid(specNodePath(current)) ==> result == nil
+//@   ensures path [C05,C06,C07,C08,C09]: current.hierarchy != 1 ==> current.brnch.path == specStoredPath(current)
 //@ loop gtree.defaultGrowerSimple.assembleBranch#1
+//@   invariant path: specPathUp(tmpParent, current.brnch.path) == specStoredPath(current)
 //@   invariant up: tmpParent != nil && tmpParent.hierarchy < current.hierarchy && (tmpParent.hierarchy == 1 || tmpParent.parent != nil)
 //@   invariant pre: specPrefix(dg.lastNodeFormat, dg.intermedialNodeFormat, tmpParent) ++ current.brnch.value == specPrefix(dg.lastNodeFormat, dg.intermedialNodeFormat, current.parent) ++ specConn(dg.lastNodeFormat, dg.intermedialNodeFormat, current)
 //@   decreases tmpParent.hierarchy
@@ -283,24 +335,30 @@ func lemmaDescUnique(a, b, n *Node) {
 }
 
 // validated(r): every node of the subtree of r has a name that is a single valid path element and a stored path that fs.ValidPath accepts.
-//@ pred validated(r *Node): forall m *Node :: {specDesc(r, m)} specDesc(r, m) ==> validElem(m.name) && fsValid(specNodePath(m))
+// nodeGrown(last, mid, n): n carries the branch string the drawing rule prescribes and, below the root, the stored path
+// made of its own name and the names of all its ancestors.
+//@ pred nodeGrown(last branchFormat, mid branchFormat, n *Node): n.brnch.value == specBranch(last, mid, n) && (n.hierarchy != 1 ==> n.brnch.path == specStoredPath(n))
+// nodeValidated(n): the name of n is a single valid path element, its stored path is one fs.ValidPath accepts, and
+// (below the root) that stored path is made of its own name and the names of all its ancestors.
+//@ pred nodeValidated(n *Node): validElem(n.name) && fsValid(specNodePath(n)) && (n.hierarchy != 1 ==> n.brnch.path == specStoredPath(n))
+//@ pred validated(r *Node): forall m *Node :: {specDesc(r, m)} specDesc(r, m) ==> nodeValidated(m)
 
 //@ func gtree.defaultGrowerSimple.assemble
 //@   requires nn: dg != nil && current != nil
 //@   requires attached: current.hierarchy == 1 || current.parent != nil
 //@   modifies Node.brnch.value, Node.brnch.path
 //@   use lemma lemmaDescLevel, lemmaDescThroughChild, lemmaDescUp, lemmaDescUnique
-//@   ensures subtree [C01,C03,C05]: result == nil ==> (forall n *Node :: {specDesc(current, n)} specDesc(current, n) ==> n.brnch.value == specBranch(dg.lastNodeFormat, dg.intermedialNodeFormat, n))
+//@   ensures subtree [C01,C03,C05]: result == nil ==> (forall n *Node :: {specDesc(current, n)} specDesc(current, n) ==> nodeGrown(dg.lastNodeFormat, dg.intermedialNodeFormat, n))
 //@   ensures stable: forall n *Node :: {n.brnch.value} !specDesc(current, n) ==> n.brnch.value == old(n.brnch.value)
 //@   ensures stablePath: forall n *Node :: {n.brnch.path} !specDesc(current, n) ==> n.brnch.path == old(n.brnch.path)
 //@   ensures noval [C01]: !dg.enabledValidation ==> result == nil
 //@   ensures valid [C07,C09]: dg.enabledValidation && result == nil ==> validated(current)
 //@ loop gtree.defaultGrowerSimple.assemble#1
-//@   invariant selfValid: dg.enabledValidation ==> validElem(current.name) && fsValid(specNodePath(current))
-//@   invariant doneValid: dg.enabledValidation ==> (forall j int, n *Node :: {specDesc(current.children[j], n)} 0 <= j && j < $i && specDesc(current.children[j], n) ==> validElem(n.name) && fsValid(specNodePath(n)))
+//@   invariant selfValid: dg.enabledValidation ==> nodeValidated(current)
+//@   invariant doneValid: dg.enabledValidation ==> (forall j int, n *Node :: {specDesc(current.children[j], n)} 0 <= j && j < $i && specDesc(current.children[j], n) ==> nodeValidated(n))
 //@   invariant stablePath: forall n *Node :: {n.brnch.path} !specDesc(current, n) ==> n.brnch.path == old(n.brnch.path)
-//@   invariant self: current.brnch.value == specBranch(dg.lastNodeFormat, dg.intermedialNodeFormat, current)
-//@   invariant done: forall j int, n *Node :: {specDesc(current.children[j], n)} 0 <= j && j < $i && specDesc(current.children[j], n) ==> n.brnch.value == specBranch(dg.lastNodeFormat, dg.intermedialNodeFormat, n)
+//@   invariant self: nodeGrown(dg.lastNodeFormat, dg.intermedialNodeFormat, current)
+//@   invariant done: forall j int, n *Node :: {specDesc(current.children[j], n)} 0 <= j && j < $i && specDesc(current.children[j], n) ==> nodeGrown(dg.lastNodeFormat, dg.intermedialNodeFormat, n)
 //@   invariant stable: forall n *Node :: {n.brnch.value} !specDesc(current, n) ==> n.brnch.value == old(n.brnch.value)
 
 //@ func gtree.defaultGrowerSimple.grow
@@ -308,12 +366,12 @@ func lemmaDescUnique(a, b, n *Node) {
 //@   requires roots: forall k int :: {roots[k]} 0 <= k && k < len(roots) ==> roots[k] != nil && roots[k].hierarchy == 1
 //@   modifies Node.brnch.value, Node.brnch.path
 //@   use lemma lemmaDescLevel, lemmaDescUnique
-//@   ensures grown [C01,C03,C05]: result == nil ==> (forall k int, n *Node :: {specDesc(roots[k], n)} 0 <= k && k < len(roots) && specDesc(roots[k], n) ==> n.brnch.value == specBranch(dg.lastNodeFormat, dg.intermedialNodeFormat, n))
+//@   ensures grown [C01,C03,C05]: result == nil ==> (forall k int, n *Node :: {specDesc(roots[k], n)} 0 <= k && k < len(roots) && specDesc(roots[k], n) ==> nodeGrown(dg.lastNodeFormat, dg.intermedialNodeFormat, n))
 //@   ensures noval [C01]: !dg.enabledValidation ==> result == nil
 //@   ensures valid [C07,C09]: dg.enabledValidation && result == nil ==> (forall k int :: {roots[k]} 0 <= k && k < len(roots) ==> validated(roots[k]))
 //@ loop gtree.defaultGrowerSimple.grow#1
-//@   invariant doneValid: dg.enabledValidation ==> (forall k int, n *Node :: {specDesc(roots[k], n)} 0 <= k && k < $i && specDesc(roots[k], n) ==> validElem(n.name) && fsValid(specNodePath(n)))
-//@   invariant done: forall k int, n *Node :: {specDesc(roots[k], n)} 0 <= k && k < $i && specDesc(roots[k], n) ==> n.brnch.value == specBranch(dg.lastNodeFormat, dg.intermedialNodeFormat, n)
+//@   invariant doneValid: dg.enabledValidation ==> (forall k int, n *Node :: {specDesc(roots[k], n)} 0 <= k && k < $i && specDesc(roots[k], n) ==> nodeValidated(n))
+//@   invariant done: forall k int, n *Node :: {specDesc(roots[k], n)} 0 <= k && k < $i && specDesc(roots[k], n) ==> nodeGrown(dg.lastNodeFormat, dg.intermedialNodeFormat, n)
 
 // ---------------------------------------------------------------------------------------------
 // simple_tree_spreader.go (text)
@@ -376,11 +434,13 @@ func specRenderAll(last, mid branchFormat, roots []*Node, i int) string {
 }
 
 // grown(last, mid, r): every node of the subtree of r carries the branch string the drawing rule prescribes.
-//@ pred grown(last branchFormat, mid branchFormat, r *Node): forall m *Node :: {specDesc(r, m)} specDesc(r, m) ==> m.brnch.value == specBranch(last, mid, m)
+// grownLines(last, mid, r): the branch-string half of grown (what the rendering lemmas need; they do not read stored paths).
+//@ pred grownLines(last branchFormat, mid branchFormat, r *Node): forall m *Node :: {specDesc(r, m)} specDesc(r, m) ==> m.brnch.value == specBranch(last, mid, m)
+//@ pred grown(last branchFormat, mid branchFormat, r *Node): forall m *Node :: {specDesc(r, m)} specDesc(r, m) ==> nodeGrown(last, mid, m)
 
 //@ lemma gtree.lemmaRawIsRender
 //@   requires nn: n != nil
-//@   requires g: grown(last, mid, n)
+//@   requires g: grownLines(last, mid, n)
 //@   ensures eq: specRaw(n) == specRender(last, mid, n)
 //@   trigger specRaw(n), specRender(last, mid, n)
 //@   decreases down(n), 1, 0
@@ -391,7 +451,7 @@ func lemmaRawIsRender(last, mid branchFormat, n *Node) {
 
 //@ lemma gtree.lemmaRawKidsIsRender
 //@   requires nn: n != nil && 0 <= i && i <= len(n.children)
-//@   requires g: grown(last, mid, n)
+//@   requires g: grownLines(last, mid, n)
 //@   use lemma lemmaDescUp
 //@   ensures eq: specRawKids(n, i) == specRenderKids(last, mid, n, i)
 //@   decreases down(n), 0, i
@@ -1129,7 +1189,7 @@ func allRootsT(rs []*Node) bool { return true }
 
 //@ lemma gtree.lemmaRawAllIsRenderAll
 //@   requires rng: 0 <= i && i <= len(roots)
-//@   requires g: forall k int :: {roots[k]} 0 <= k && k < i ==> roots[k] != nil && grown(last, mid, roots[k])
+//@   requires g: forall k int :: {roots[k]} 0 <= k && k < i ==> roots[k] != nil && grownLines(last, mid, roots[k])
 //@   ensures eq: specRawAll(roots, i) == specRenderAll(last, mid, roots, i)
 //@   trigger specRawAll(roots, i), specRenderAll(last, mid, roots, i)
 //@   decreases i
